@@ -90,7 +90,7 @@ def extra_c11(seed, tier, log):
     for prof in ("mixed", "rebuild_finish", "rebuild"):
         for _ in range(n_for(tier, 3, 15)):
             for _try in range(20):
-                s = gen.gen_scenario(rng.randrange(10**9), prof, dict(p_late=0.0))
+                s = gen.gen_scenario(rng.randrange(10**9), prof, dict(p_late=0.0, p_reuse=0.0))
                 if len(s["events"]) >= 2:
                     scns.append(s)
                     break
@@ -141,7 +141,7 @@ def _gen_many(seed, tier, tag, profiles, nq, nt, pred=None, overrides=None):
             for _try in range(30):
                 # the differential runs derive twins from the scenario: late registration (which names
                 # events by position) is exercised by the shared suite and by extra_c10 only
-                s = gen.gen_scenario(rng.randrange(10**9), prof, dict(overrides or {}, p_late=(overrides or {}).get("p_late", 0.0)))
+                s = gen.gen_scenario(rng.randrange(10**9), prof, dict(overrides or {}, p_late=(overrides or {}).get("p_late", 0.0), p_reuse=(overrides or {}).get("p_reuse", 0.0)))
                 if pred is None or pred(s):
                     out.append(s)
                     break
@@ -590,9 +590,34 @@ def extra_c16(seed, tier, log):
             if not all(np.array_equal(a[t], b[t], equal_nan=True) for t in rows):
                 failures.append(_fail("C16", s, f"rows written before an early stop differ from the full run (record {name})", sig="prefix-not-intact"))
                 break
+    # (5) histories: what an earlier simulation of the same process chose to save or to register does not
+    # change what a later one records (save_records="all" without stocks, then stocks registered / saved)
+    n_hist = 0
+    for s in scns[: n_for(tier, 2, 6)]:
+        s = copy.deepcopy(s)
+        s["sim"]["register_stocks"] = True
+        ref = drive.run(s, mode="step", tap=False)
+        a = copy.deepcopy(s); a["sim"]["register_stocks"] = False; a["sim"]["save_records"] = "all"; a["id"] = s["id"] + "-all-nostock"
+        drive.run(a, mode="step", tap=False)
+        b = drive.run(s, mode="step", tap=False)
+        c = copy.deepcopy(s); c["sim"]["save_records"] = ["inputs_stocks", "production_realised"]; c["id"] = s["id"] + "-save-stocks"
+        trc = drive.run(c, mode="step", tap=False)
+        evals += 4
+        n_hist += 1
+        if ref.get("error") is not None:
+            continue
+        d = compare_runs(ref, b, bitwise=True)
+        if d:
+            failures.append(_fail("C16", s, f"records differ after another simulation saved all records without registering stocks: {d[0]}",
+                                  sig="records-depend-on-history"))
+        d = compare_runs(ref, trc, bitwise=True)
+        if d:
+            scenarios[c["id"]] = c
+            failures.append(_fail("C16", c, f"saving the stocks record to a file after another simulation ran without stocks: {d[0]}",
+                                  sig="records-depend-on-history"))
     return dict(failures=failures, evaluations=evals, scenarios=scenarios, obligations=[],
-                samples=[dict(kind="row t vs observed state; fill; loop vs step; file vs memory for subsets; JSON artefacts; early stop",
-                              scenarios=len(scns))])
+                samples=[dict(kind="row t vs observed state; fill; loop vs step; file vs memory for subsets; JSON artefacts; early stop; histories",
+                              scenarios=len(scns), histories=n_hist)])
 
 
 def extra_c17(seed, tier, log):
@@ -1006,6 +1031,62 @@ def extra_c12(seed, tier, log):
             cf.check({"scn": f"ctorl-{k}", "t": 0, "ob": "ctor.labelled", "desc": str(desc)[:300]},
                      f"chk_regsec_lbl {q(I)} {nl([rid[r] for r in regs])} {nl([sid_[s_] for s_ in secs])} "
                      f"{wl(wr, lambda r: rid[r])} {wl(ws_, lambda s_: sid_[s_])} {il(got)}")
+    # ---- malformed stream: weights covering the affected set with a positive total but a negative entry
+    # (the per-industry impact would be negative: must be rejected, never produce an event)
+    n_neg = 0
+    for k in range(n_for(tier, 10, 60)):
+        I = rng.choice([1.0, 1000.0, 123456.789])
+        allind = [(r, s_) for r in regions for s_ in sectors]
+        aff = rng.sample(allind, rng.randint(2, 5))
+        w = [(c, rng.choice([1.0, 2.0, 5.0, 7.25])) for c in aff]
+        j = rng.randrange(len(w))
+        w[j] = (w[j][0], -rng.choice([0.25, 0.5, 0.9]))          # total stays positive
+        rng.shuffle(w)
+        if rng.random() < 0.5:
+            distrib = pd.Series([v for _, v in w], index=pd.MultiIndex.from_tuples([c for c, _ in w], names=["region", "sector"]))
+            got = err = None
+            try:
+                got = scen.bev.from_scalar_industries(I, event_type=rng.choice(["recovery", "rebuild"]), affected_industries=list(aff),
+                                                      impact_distrib=distrib, recovery_tau=5, rebuild_tau=5,
+                                                      rebuilding_sectors={"s1": 1.0}).impact
+            except TypeError:
+                try:
+                    got = scen.bev.from_scalar_industries(I, event_type="recovery", affected_industries=list(aff),
+                                                          impact_distrib=distrib, recovery_tau=5).impact
+                except Exception as ex:  # noqa: BLE001
+                    err = ex
+            except Exception as ex:  # noqa: BLE001
+                err = ex
+            evals += 1
+            n_neg += 1
+            desc = dict(kind="industries, a negative weight", I=I, affected=aff, weights=w)
+            if got is not None:
+                failures.append(_fail("C12", None, f"weights with a negative entry accepted: impact {[float(v) for v in got.values]} ({desc})",
+                                      sig="scalar-negative-accepted"))
+            cf.check({"scn": f"ctorn-{k}", "t": 0, "ob": "ctor.labelled", "desc": str(desc)[:300]},
+                     f"chk_scalar_lbl {q(I)} {nl([lbl(a) for a in aff])} {wl(w, lbl)} {il(got)}")
+        else:
+            regs, secs = rng.sample(regions, rng.randint(1, 3)), rng.sample(sectors, rng.randint(2, 3))
+            ws_ = [(s_, rng.choice([1.0, 3.0, 4.0])) for s_ in secs]
+            j = rng.randrange(len(ws_))
+            ws_[j] = (ws_[j][0], -0.5)
+            got = err = None
+            try:
+                got = scen.bev.from_scalar_regions_sectors(I, event_type="recovery", affected_regions=list(regs), affected_sectors=list(secs),
+                                                           impact_regional_distrib="equal", impact_sectoral_distrib=pd.Series(dict(ws_)),
+                                                           recovery_tau=5).impact
+            except Exception as ex:  # noqa: BLE001
+                err = ex
+            evals += 1
+            n_neg += 1
+            desc = dict(kind="regions x sectors, a negative sectoral weight", I=I, regions=regs, sectors=secs, ws=ws_)
+            if got is not None:
+                failures.append(_fail("C12", None, f"weights with a negative entry accepted: impact {[float(v) for v in got.values]} ({desc})",
+                                      sig="scalar-negative-accepted"))
+            cf.check({"scn": f"ctorn-{k}", "t": 0, "ob": "ctor.labelled", "desc": str(desc)[:300]},
+                     f"chk_regsec_lbl {q(I)} {nl([rid[r] for r in regs])} {nl([sid_[s_] for s_ in secs])} "
+                     f"None {wl(ws_, lambda s_: sid_[s_])} {il(got)}")
+    dup_stats["negative weight (must be rejected)"] = n_neg
     samples.append(dict(kind="labelled constructor calls", counts=dict(dup_stats)))
     verdicts = cases.run_casefiles([(os.path.join(cases.BUILD, f"ctor_{os.getpid()}"), cf)], jobs=1)
     try:
